@@ -63,5 +63,7 @@ pub fn dt_max_ns() -> i128 {
     (cal::max_day() as i128 + 1) * DAY_NS - 1
 }
 pub fn fmt_ns(n: i128) -> String {
-    format!("{}.{:09}", n.div_euclid(NS), n.rem_euclid(NS))
+    let sign = if n < 0 { "-" } else { "" };
+    let a = n.unsigned_abs();
+    format!("{}{}.{:09}", sign, a / 1_000_000_000, a % 1_000_000_000)
 }
